@@ -3,9 +3,9 @@ package main
 // Heap access: per-(struct,field) arrays, cells, element stores, maps, sub-objects, well-typedness axioms.
 
 import (
-	"os"
 	"fmt"
 	"go/types"
+	"os"
 	"strings"
 
 	"golang.org/x/tools/go/ssa"
@@ -32,6 +32,60 @@ func (x *Exec) nonEscaping(a *ssa.Alloc) bool {
 	}
 	x.escCache[a] = res
 	return res
+}
+
+// callOnly: like nonEscaping, but the allocation may also be handed to calls as a plain argument; whether one of those callees
+// could have kept it is then decided per path by the escape tracking (State.escRefs)
+func (x *Exec) callOnly(a *ssa.Alloc) bool {
+	if r, ok := x.callOnlyCache[a]; ok {
+		return r
+	}
+	res := true
+	if a.Referrers() != nil {
+		for _, u := range *a.Referrers() {
+			switch i := u.(type) {
+			case *ssa.UnOp, *ssa.DebugRef:
+			case *ssa.Store:
+				if i.Val == ssa.Value(a) {
+					res = false
+				}
+			case *ssa.Call:
+				if i.Call.Value == ssa.Value(a) {
+					res = false
+				}
+			default:
+				res = false
+			}
+		}
+	}
+	if x.callOnlyCache == nil {
+		x.callOnlyCache = map[*ssa.Alloc]bool{}
+	}
+	x.callOnlyCache[a] = res
+	return res
+}
+
+// unescapedFresh: ref is an object allocated by this activation that no callee could have kept and that was never stored
+func (st *State) unescapedFresh(ref string) bool {
+	if st.escRefs[ref] {
+		return false
+	}
+	for _, f := range st.freshList {
+		if f == ref {
+			return true
+		}
+	}
+	return false
+}
+
+// havocAllCall: the heap effect of a call about which nothing is known
+func (x *Exec) havocAllCall(st *State, args []Val) {
+	for _, a := range args {
+		st.markEscaping(flatten(a))
+	}
+	x.semKeep = true
+	x.havocAll(st)
+	x.semKeep = false
 }
 
 const capLimit = "281474976710656" // 2^48: assumed upper bound on slice capacities (listed in evidence)
@@ -558,7 +612,10 @@ func (x *Exec) havocAll(st *State) {
 	var kept []keep
 	for sv, v := range st.env {
 		a, ok := sv.(*ssa.Alloc)
-		if !ok || v.K != KRef || !x.nonEscaping(a) {
+		if !ok || v.K != KRef {
+			continue
+		}
+		if !x.nonEscaping(a) && !(x.semKeep && x.callOnly(a) && st.unescapedFresh(v.S)) {
 			continue
 		}
 		et := a.Type().(*types.Pointer).Elem()
